@@ -1,4 +1,5 @@
 import PnVerif.Lemmas.Redef
+import PnVerif.Props.C16
 /-
   C06 — redefinition preserves existing data; abort is all-or-nothing.
 
@@ -321,6 +322,54 @@ example : LayoutOK ⟨100, 140, 3⟩ ⟨124, 164, 12⟩ 3 [⟨100, 124, 40, fals
   nvarsGe := by decide
   recNeedsVar := by simp
 
+/-! ### enddef = move + fill of the new variables -/
+open PnVerif.Fill in
+/-- **enddef_fill_touches_only_new**: the fill that `ncmpi_enddef` performs after the move (new fill-mode
+    variables, and their slots in the `numrecs` EXISTING records) writes only inside the new variables
+    (`PnVerif.Props.C16.fill_effect`); if — as NC_begins lays them out — those slots are disjoint from the new
+    places of the old variables and of the old records (`hdisjF`, `hdisjR`; evaluated by checks/c06.py on the
+    real layouts, and the real per-rank fill ranges are checked to lie inside those slots), then after the
+    WHOLE enddef (move + fill) every existing byte of every old fixed-size variable and of every old record is
+    still what it was before the redefinition. -/
+theorem enddef_fill_touches_only_new (m : ReadMode) (nprocs unit : Nat) (hp : 1 ≤ nprocs) (hu : 1 ≤ unit) (f : File)
+    (old new : Lay) (nvars numrecs : Nat) (vars : List MVar) (h : LayoutOK old new nvars vars)
+    (elem : FVar → List UInt8) (helem : ∀ v, (elem v).length = v.xsz) (newVars : List FVar) (recBase : Nat)
+    (hnl : PnVerif.Props.C16.NewLayoutOK recBase new.recsize newVars)
+    (hdisjF : ∀ b, PnVerif.Props.C16.InFillSlot new.recsize numrecs newVars b →
+      ∀ v ∈ vars, v.isRec = false → b < v.newBegin ∨ v.newBegin + v.len ≤ b)
+    (hdisjR : ∀ b, PnVerif.Props.C16.InFillSlot new.recsize numrecs newVars b →
+      ∀ r, r < numrecs → b < new.beginRec + r * new.recsize ∨ new.beginRec + r * new.recsize + old.recsize ≤ b) :
+    (∀ b, ¬ PnVerif.Props.C16.InFillSlot new.recsize numrecs newVars b →
+      rd (enddefAll m nprocs unit f old new nvars numrecs vars elem newVars) b
+        = rd (enddefMove m nprocs unit f old new nvars numrecs vars) b) ∧
+    (∀ v ∈ vars, v.isRec = false → ∀ k, k < v.len → v.oldBegin + k < f.length →
+      rd (enddefAll m nprocs unit f old new nvars numrecs vars elem newVars) (v.newBegin + k) = rd f (v.oldBegin + k)) ∧
+    (∀ r k, r < numrecs → k < old.recsize → old.beginRec + r * old.recsize + k < f.length →
+      rd (enddefAll m nprocs unit f old new nvars numrecs vars elem newVars) (new.beginRec + r * new.recsize + k)
+        = rd f (old.beginRec + r * old.recsize + k)) := by
+  have hfill := (PnVerif.Props.C16.fill_effect nprocs recBase new.recsize numrecs hp elem helem newVars hnl
+    (enddefMove m nprocs unit f old new nvars numrecs vars)).2.2
+  obtain ⟨hm1, hm2⟩ := enddefMove_preserves m nprocs unit hp hu f old new nvars numrecs vars h
+  refine ⟨fun b hb => hfill b hb, fun v hv hvf k hk hs => ?_, fun r k hr hk hs => ?_⟩
+  · unfold enddefAll
+    rw [hfill _ (fun hin => by have := hdisjF _ hin v hv hvf; omega)]
+    exact hm1 v hv hvf k hk hs
+  · unfold enddefAll
+    rw [hfill _ (fun hin => by have := hdisjR _ hin r hr; omega)]
+    exact hm2 r k hr hk hs
+
+/-- non-vacuity of `hdisjF`/`hdisjR`: the layout of the `LayoutOK` example below (fixed variable at 124..164,
+    4-byte old records at 164 + 12·r) and a new fill-mode record variable of 2 ints at offset 4 of every record -/
+example : ∀ b, PnVerif.Props.C16.InFillSlot 12 3 [(⟨168, 4, 2, true, false⟩ : PnVerif.Fill.FVar)] b →
+    (b < 124 ∨ 124 + 40 ≤ b) ∧ ∀ r, r < 3 → b < 164 + r * 12 ∨ 164 + r * 12 + 4 ≤ b := by
+  intro b ⟨v, hv, _, hk⟩
+  have hv' : v = ⟨168, 4, 2, true, false⟩ := by simpa using hv
+  subst hv'
+  rcases hk with ⟨h1, _⟩ | ⟨_, recno, _, h1, h2⟩
+  · cases h1
+  · simp only [PnVerif.Props.C16.vbytes] at h1 h2
+    refine ⟨by omega, fun r _ => by omega⟩
+
 /-! ### abort -/
 
 /-- **abort_redef_identity**: entering define mode from data mode (collective or independent) and
@@ -355,7 +404,7 @@ theorem abort_data_keeps (sync : File → File) (s : NCState) (f : File)
 
 def obligations : List String := [
   "chunkSize_pos", "bufcount_fits_int", "moveBlock_copied", "moveBlock_correct",
-  "moveRecords_preserves", "moveFixed_preserves", "enddefMove_preserves",
+  "moveRecords_preserves", "moveFixed_preserves", "enddefMove_preserves", "enddef_fill_touches_only_new",
   "abort_redef_identity", "abort_create_removes", "abort_data_keeps"
 ]
 end PnVerif.Props.C06
